@@ -2437,13 +2437,15 @@ func MatchAndPopulateNamedGroups(str string, rexExp *regexp.Regexp,
 	}
 
 	for i, name := range names {
+		if i == 0 || name == "" {
+			// The whole match and unnamed groups don't create a column.
+			continue
+		}
 		if newColValues[name] == nil {
 			newColValues[name] = make([]sutils.CValueEnclosure, numItems)
 		}
-		if i != 0 && name != "" {
-			newColValues[name][idx].Dtype = sutils.SS_DT_STRING
-			newColValues[name][idx].CVal = match[i]
-		}
+		newColValues[name][idx].Dtype = sutils.SS_DT_STRING
+		newColValues[name][idx].CVal = match[i]
 	}
 
 	return nil
